@@ -3,7 +3,7 @@ AuthContext(authenticated=True, principal=""), although the property (and spec Â
 anonymously") says an unproven allow-mode request must proceed exactly as an anonymous one.
 Run: /venv/bin/python /verif/repro/C24_allow_unproven_authenticated.py"""
 import sys
-sys.path.insert(0, "/repo")
+import os; sys.path.insert(0, os.environ.get("VGI_REPO", "/repo"))
 import logging; logging.disable(logging.CRITICAL)
 from vgi_rpc.http._proof import ProxyProofConfig, proxy_proof_gate, PROOF_HEADER
 from vgi_rpc.http._bearer import require_all
